@@ -7,8 +7,10 @@ import (
 	"fmt"
 	"log/slog"
 	"net/netip"
+	"os"
 	"slices"
 	"sort"
+	"strconv"
 	"strings"
 	"sync"
 	"time"
@@ -71,7 +73,7 @@ type c28wCfg struct {
 	RecvErr   bool         // also offer the recv_error composite (main delete + pending delete of a live tunnel)
 	Seed      []c28wEv     // prefix executed (and fully checked once) before the search starts
 	Depth     int
-	BudgetS   float64 // soft time budget of this scenario (0 = whatever is left of the check's budget)
+	Share     float64 // soft time budget of this scenario as a fraction of the check's budget (0 = whatever is left)
 }
 
 // c28wEv is one event of the menu.
@@ -531,6 +533,10 @@ func (w *c28wWorld) step(e c28wEv, check bool) *c28wOut {
 		o.RetIdx, o.Err = w.hsm.allocateIndex(t.hh)
 		o.Reads, o.ZeroSeen = w.rndReads, w.rndZero
 		o.OpClass = "allocateIndex"
+		if o.Err == nil { // buildStage0Packet stores the initiator's first message right after the index was allocated
+			w.seq++
+			t.hi.HandshakePacket[handshakePacketStage0] = []byte{'c', '2', '8', 'i', byte(w.seq >> 8), byte(w.seq)}
+		}
 		switch {
 		case o.Err != nil:
 			o.Class = "allocateIndex: no free index after 32 tries"
@@ -907,6 +913,14 @@ func (w *c28wWorld) detail(o *c28wOut, extra map[string]any) map[string]any {
 	return d
 }
 
+// c28wBudget mirrors mc.Begin's soft budget (seconds).
+func c28wBudget(c *mc.Check) float64 {
+	if f, err := strconv.ParseFloat(os.Getenv("VERIF_BUDGET_S"), 64); err == nil && f > 0 {
+		return f
+	}
+	return mc.Pick(c, 45.0, 900.0)
+}
+
 var c28wSeenSigs sync.Map
 
 // c28wReport hands a violation to the Check; the (costly) detail is only rendered for the first hit of a signature.
@@ -975,7 +989,9 @@ func c28wExplore(c *mc.Check, cfg *c28wCfg, check c28wChecker, stats *c28wStats)
 			w := &c28wWorld{cfg: cfg}
 			return w.label(e)
 		},
-		Stop: func() bool { return c.OutOfTime() || (cfg.BudgetS > 0 && time.Since(started).Seconds() > cfg.BudgetS) },
+		Stop: func() bool {
+			return c.OutOfTime() || (cfg.Share > 0 && time.Since(started).Seconds() > cfg.Share*c28wBudget(c))
+		},
 	})
 }
 
@@ -987,14 +1003,14 @@ func c28wScenarios(c *mc.Check) []*c28wCfg {
 		MaxHI: mc.Pick(c, 3, 4), MaxRelays: mc.Pick(c, 2, 3),
 		Sets:   []c28wSet{c28wSetA, c28wSetAB, c28wSetBC},
 		Starts: []netip.Addr{c28wAddrA, c28wAddrB}, Targets: []netip.Addr{c28wPeerT1},
-		StartDup: th, RecvErr: th, Depth: mc.Pick(c, 5, 7),
+		StartDup: th, RecvErr: th, Depth: mc.Pick(c, 5, 6),
 	}
 	// the rejecting branches of CheckAndComplete that come before the collision test (stale / duplicate handshakes)
 	rejects := &c28wCfg{
 		Name: "rejects(stale and duplicate handshakes, index space 1..3)", Space: 4, Cands: []int{0, 2},
 		MaxHI: 3, MaxRelays: 0,
-		Sets:   []c28wSet{c28wSetA, c28wSetAB},
-		Starts: []netip.Addr{c28wAddrA},
+		Sets:     []c28wSet{c28wSetA, c28wSetAB},
+		Starts:   []netip.Addr{c28wAddrA},
 		Variants: true, Depth: mc.Pick(c, 4, 5),
 	}
 	// relay-heavy: a tunnel with a relay has been removed and its indexes are free again
@@ -1004,7 +1020,7 @@ func c28wScenarios(c *mc.Check) []*c28wCfg {
 		Sets:   []c28wSet{c28wSetA, c28wSetAB},
 		Starts: []netip.Addr{c28wAddrA}, Targets: []netip.Addr{c28wPeerT1},
 		Seed:  []c28wEv{{Op: 'R', H: -1, Set: 0, V: 0}, {Op: 'Y', H: 0, Set: 0, V: 0}, {Op: 'D', H: 0}},
-		Depth: mc.Pick(c, 4, 6),
+		Depth: mc.Pick(c, 4, 6), Share: 0.15,
 	}
 	// per-address cap: four tunnels on a (two of them also on b) exist already; 16-value index space, no collisions
 	capSets := []c28wSet{c28wSetA, c28wSetAB, c28wSetBC}
@@ -1015,16 +1031,16 @@ func c28wScenarios(c *mc.Check) []*c28wCfg {
 		Name: "cap(index space 1..15)", Space: 16, FreeIdx: true,
 		MaxHI: mc.Pick(c, 7, 8), MaxRelays: mc.Pick(c, 2, 3),
 		Sets: capSets, Starts: []netip.Addr{c28wAddrB}, Targets: []netip.Addr{c28wPeerT1},
-		Seed: []c28wEv{{Op: 'R', H: -1, Set: 1}, {Op: 'Y', H: 0, Set: 0}, {Op: 'R', H: -1, Set: 0}, {Op: 'R', H: -1, Set: 1}, {Op: 'R', H: -1, Set: 0}},
-		Depth: mc.Pick(c, 4, 5),
+		Seed:  []c28wEv{{Op: 'R', H: -1, Set: 1}, {Op: 'Y', H: 0, Set: 0}, {Op: 'R', H: -1, Set: 0}, {Op: 'R', H: -1, Set: 1}, {Op: 'R', H: -1, Set: 0}},
+		Depth: mc.Pick(c, 4, 5), Share: 0.3,
 	}
 	// cap reached through the address b of two-address tunnels: evictions hit tunnels that are primary elsewhere
 	cappedB := &c28wCfg{
 		Name: "cap(lists of a and b both full, different oldest)", Space: 16, FreeIdx: true,
 		MaxHI: mc.Pick(c, 8, 9), MaxRelays: 1,
 		Sets: []c28wSet{c28wSetAB, c28wSetBC, c28wSetA}, Starts: nil, Targets: []netip.Addr{c28wPeerT1},
-		Seed: []c28wEv{{Op: 'R', H: -1, Set: 2}, {Op: 'R', H: -1, Set: 1}, {Op: 'R', H: -1, Set: 0}, {Op: 'R', H: -1, Set: 0}, {Op: 'R', H: -1, Set: 0}, {Op: 'R', H: -1, Set: 0}},
-		Depth: mc.Pick(c, 3, 4),
+		Seed:  []c28wEv{{Op: 'R', H: -1, Set: 2}, {Op: 'R', H: -1, Set: 1}, {Op: 'R', H: -1, Set: 0}, {Op: 'R', H: -1, Set: 0}, {Op: 'R', H: -1, Set: 0}, {Op: 'R', H: -1, Set: 0}},
+		Depth: mc.Pick(c, 3, 4), Share: 0.15,
 	}
 	return []*c28wCfg{rejects, relaySeed, cappedB, capped, collide}
 }
